@@ -6,7 +6,8 @@
    Only statements here; proofs in Proofs/Exec*.v. *)
 From Coq Require Import List ZArith Bool Arith.
 From FB Require Import Model.Exec Model.TraceSpec Model.ExecInv.
-From FB Require Proofs.ExecCount Proofs.ExecProps Proofs.ExecSpec Proofs.ExecTerminal.
+From FB Require Import Model.Settle.
+From FB Require Proofs.ExecCount Proofs.ExecProps Proofs.ExecSpec Proofs.ExecTerminal Proofs.FlattenProofs.
 Import ListNotations.
 
 (* the global conservation law (no hypothesis on the network): for every channel c and item x, what the
@@ -70,6 +71,20 @@ Theorem C01_spec_sound : forall nt T s, wf_net nt = true -> forallb (fun x => Na
   trace_ok nt (tr s) = [] /\ terminal_ok nt (tr s) (map counters_of (nodes s)) = [].
 Proof. exact ExecTerminal.spec_sound_clean_run. Qed.
 
+
+(* ---- disabled nodes and all their descendants never exist at run time ----
+   [flatten] is the model of InitNodeContextHierarchy / WithConfig (compared with the real context tree on every
+   case).  Its rows are exactly the enabled nodes (no disabled ancestor-or-self), each once, in setup order (a
+   node, its error handler, its enabled children's subtrees); the table is well-formed; only rows of the table
+   are ever set up or handed an event (C05_nothing_else_set_up, and no action of the model names other nodes). *)
+Theorem C01_disabled_never_exist : forall roots, map nid (flatten roots) = FlattenProofs.live_ids_all roots.
+Proof. exact FlattenProofs.flatten_ids. Qed.
+Theorem C01_table_well_formed : forall roots, wf_net (flatten roots) = true.
+Proof. exact FlattenProofs.flatten_wf. Qed.
+Theorem C01_roots_are_enabled_roots : forall roots,
+  map (fun r => nid (info (flatten roots) r)) (Exec.roots (flatten roots)) = FlattenProofs.enabled_ids roots.
+Proof. exact FlattenProofs.flatten_roots. Qed.
+
 Print Assumptions C01_conservation_law.
 Print Assumptions C01_channel_conservation.
 Print Assumptions C01_offered_is_buffered_or_handed_over.
@@ -80,3 +95,6 @@ Print Assumptions C01_filtered_offers_nothing.
 Print Assumptions C01_failure_goes_to_own_handler_only.
 Print Assumptions C01_clean_end_exact.
 Print Assumptions C01_spec_sound.
+Print Assumptions C01_disabled_never_exist.
+Print Assumptions C01_table_well_formed.
+Print Assumptions C01_roots_are_enabled_roots.
